@@ -30,7 +30,8 @@ Pool == <<
   PF("",   <<X("t", <<"r">>)>>, <<>>),                          \* 17 extend in a model file (syntax error)
   PF("m2", <<X("t", <<>>)>>, <<>>),                             \* 18 extension without relations
   PF("m3", <<X("t", <<"R", "r">>)>>, <<"C", "c">>),             \* 19 names that differ only in case: several conflicts whose order
-  PF("m2", <<X("t", <<"r", "R", "s">>)>>, <<"c", "C">>) >>      \* 20 a case-blind sort leaves to map iteration
+  PF("m2", <<X("t", <<"r", "R", "s">>)>>, <<"c", "C">>),        \* 20 a case-blind sort leaves to map iteration
+  PF("m3", <<X("t", <<"s", "r">>), X("u", <<"s">>)>>, <<>>) >>  \* 21 rendered with continuation lines that begin with `type with ...` (FilesOf sets cont)
 
 K == Len(PoolSeq)
 RECURSIVE Pow(_, _)
@@ -41,7 +42,7 @@ IdOf(s, i) == IF i > Len(s) THEN "" ELSE ToString(s[i]) \o (IF i < Len(s) THEN "
 \* every second pool file is written in the loose layout, every third one (independently) with CRLF line terminators
 FilesOf(s) == [i \in 1..Len(s) |-> [name |-> "f" \o ToString(i) \o ".fga", header |-> Pool[s[i]].header, decls |-> Pool[s[i]].decls, conds |-> Pool[s[i]].conds,
                                     loose |-> (s[i] + i) % 2 = 0,
-                                    eol |-> IF (s[i] + (2 * i)) % 3 = 0 THEN "\r\n" ELSE "\n"]]
+                                    eol |-> IF (s[i] + (2 * i)) % 3 = 0 THEN "\r\n" ELSE "\n", cont |-> s[i] = 21]]
 RECURSIVE Off(_)
 Off(n) == IF n = 0 THEN 0 ELSE Off(n - 1) + Pow(K, n)
 LenFor(i) == CHOOSE n \in 1..MaxFiles : Off(n - 1) < i /\ i <= Off(n)
